@@ -10,8 +10,11 @@ Q2_FlusherOps == [f1 |-> "flush0", f2 |-> "cbPanic"]
 Q3_SenderOps == [s1 |-> <<"send", "try">>]
 Q3_FlusherOps == [f1 |-> "cbPanic", f2 |-> "flushInf", f3 |-> "cbPanic"]
 \* fourth quick config: the async tokio flush and a callback that blocks the receiver
-Q4_SenderOps == [s1 |-> <<"send", "send", "send">>]
+Q4_SenderOps == [s1 |-> <<"send", "send", "send">>, s2 |-> <<"weCb">>]
 Q4_FlusherOps == [f1 |-> "flushTokio", f2 |-> "cbPark"]
+\* liveness with the newer actor kinds
+L2_SenderOps == [s1 |-> <<"send", "send">>, s2 |-> <<"weCb">>]
+L2_FlusherOps == [f1 |-> "flushTokio", f2 |-> "cbPark"]
 \* kill: the receiver future is dropped at an await point
 K_SenderOps == [s1 |-> <<"send", "blockInf">>, s2 |-> <<"try">>]
 K_FlusherOps == [f1 |-> "flush0"]
